@@ -245,6 +245,26 @@ def step (σ : State) (i : Nat) : Option State :=
     some { σ with now := t + 1, cbConst := some b, threads := σ.threads.set i .cbDone }
   | _ => none
 
+/-! ## file-system notifications as request sources
+
+The fs-watcher closure (feature `watch-fs`) receives `notify` events; for the kinds it accepts it
+performs exactly `request_reload`'s two critical sections (see `MJ.C20.fs_callback_is_request`), i.e.
+it is a `reqIdle` thread; for the others it does nothing.  An event kind is written as its path of
+variant names, e.g. `["Modify", "Name", "From"]`. -/
+
+/-- does an event of this kind denote a change of the content of a file or of the set of files
+    under the watched path?  (metadata-only and access events do not) -/
+def fsChangesFiles : List String → Bool
+  | ["Create", _] => true
+  | ["Remove", _] => true
+  | ["Modify", "Data", _] => true
+  | ["Modify", "Name", _] => true      -- every RenameMode: To, From (moved away / root moved), Both, Any, Other
+  | ["Modify", "Any"] => true
+  | _ => false
+
+/-- the thread a delivered fs notification is, given whether the closure's filter accepts it -/
+def fsThread (accepted : Bool) : Thread := if accepted then .reqIdle else .reqDone
+
 /-- all states reachable from an initial state with any number of threads, by any schedule -/
 inductive Reachable : State → Prop where
   | init (ths : List Thread) (h : ∀ t ∈ ths, t.initial = true) : Reachable (init ths)
